@@ -102,6 +102,18 @@ def make_case(slot, rnd, variant, boundary=None, lay=L48, wrap=False):
         if ins[1:] and lead[-1] is not None:
             for k in range(len(lead), 4):
                 ins[k] = rnd.choice((0x40, 0x50, 0x7F)) if k == len(lead) + 1 else rnd.choice((0x01, 0x02, 0x7E))
+    if lead[0] in (0xDD, 0xFD) and not wrap and rnd.random() < 0.35:
+        # index register and indexed address on different sides of a contended / uncontended / ROM edge: the cycles that
+        # access (IX+d) are contended by IX+d, not by IX
+        edge = rnd.choice((0x4000, 0x8000, 0xC000, 0x10000) if lay['m128'] else (0x4000, 0x8000, 0x4000, 0x8000, 0x10000))
+        k = rnd.choice((1, 1, 2, 5, 32, 100, 127))
+        if rnd.random() < 0.5:
+            xy, d = (edge + k - 1) % 65536, -k          # IX at or above the edge, IX+d just below it
+        else:
+            xy, d = (edge - k) % 65536, k if k < 127 else 126       # IX below the edge, IX+d at or above it
+        hi = IXh if lead[0] == 0xDD else IYh
+        regs[hi], regs[hi + 1] = xy >> 8, xy & 255
+        ins[2] = d & 255
     regs[IFF] = rnd.randrange(2)
     regs[IM] = rnd.randrange(3)
     regs[HALT] = 1 if (lead[0] == 0x76 and rnd.random() < 0.5) else 0
